@@ -463,6 +463,7 @@ def statements(ck, ctx):
 
 
 def run(ck, ctx):
+    C.adapter_census(ck, ctx, "mapping", ("parse::", "load::", "graph::", "eval::"))
     n = byte_classes(ck, ctx)
     ck.floor("byte-dispatch sites in parse.rs", n, 13)
     counts(ck, ctx)
